@@ -50,6 +50,15 @@ MODULE = {
         ('CH', T('CHOICE', root=[{'name': 'x', 't': BOOL, 'opt': None}], ext=[{'name': 'big', 't': OCT, 'opt': None}])),
         ('LO', T('SEQUENCE OF', elem=T('OCTET STRING', size={'lo': 1, 'hi': 1, 'ext': False}), size=None)),
         ('LB', T('SEQUENCE OF', elem=BOOL, size=None)),
+        # more than 4096 bits of items that are not whole octets, then something that needs alignment / padding
+        ('L3', T('SEQUENCE', root=[{'name': 'l', 't': T('SEQUENCE OF', elem=T('INTEGER', c={'lo': 0, 'hi': 7, 'ext': False}, named=None),
+                                                         size=None), 'opt': None},
+                                   {'name': 'tail', 't': T('OCTET STRING', size={'lo': 3, 'hi': 3, 'ext': False}), 'opt': None},
+                                   {'name': 'last', 't': BOOL, 'opt': None}], ext=None)),
+        ('GA', T('SEQUENCE', root=[{'name': 'id', 't': BOOL, 'opt': None}],
+                 ext=[{'member': {'name': 'a1', 't': T('SEQUENCE OF', elem=T('INTEGER', c={'lo': 0, 'hi': 7, 'ext': False}, named=None),
+                                                        size=None), 'opt': 'optional'}},
+                      {'member': {'name': 'a2', 't': T('INTEGER', c={'lo': 0, 'hi': 7, 'ext': False}, named=None), 'opt': 'optional'}}])),
         ('U', T('STRING', sk='UTF8String', size=None, alpha=None)),
         ('I', T('STRING', sk='IA5String', size=None, alpha=None)),
     ]}
@@ -57,7 +66,9 @@ TEXT = G.render_module(MODULE, G.make_resolver(MODULE))
 
 
 QUICK = {('O', 127), ('O', 128), ('O', 16383), ('O', 16384), ('O', 49152), ('S', 16384), ('LB', 16384), ('LB', 49152),
-         ('I', 16384), ('U', 128), ('G', 513), ('G', 8192), ('A', 513), ('CH', 513), ('CH', 8192), ('LO', 16384)}
+         ('I', 16384), ('U', 128), ('G', 513), ('G', 8192), ('A', 513), ('CH', 513), ('CH', 8192), ('LO', 16384),
+         ('L3', 1366), ('L3', 1500), ('GA', 1366), ('GA', 1500)}
+ODD_WIDTH_COUNTS = [1364, 1365, 1366, 1367, 1500, 2731, 2732]
 
 
 def cases(lengths, quick=False):
@@ -65,6 +76,13 @@ def cases(lengths, quick=False):
     if quick:
         return [c for c in cases(sorted({n for _, n in QUICK})) if (c[0], c[3]) in QUICK]
     out = []
+    for n in ODD_WIDTH_COUNTS:
+        p = pattern(n)
+        l3 = Raw('(VList (map (fun b => VInt (b mod 8)) (pattern %d)))' % n)
+        out.append(('L3', {'l': [b % 8 for b in p], 'tail': b'\x01\x02\x03', 'last': True},
+                    Raw('(VSeq [("l"%%string, %s); ("tail"%%string, VBytes [1; 2; 3]); ("last"%%string, VBool true)])' % l3), n))
+        out.append(('GA', {'id': True, 'a1': [b % 8 for b in p], 'a2': 5},
+                    Raw('(VSeq [("id"%%string, VBool true); ("a1"%%string, %s); ("a2"%%string, VInt 5)])' % l3), n))
     for n in lengths:
         p = pattern(n)
         pv = Raw('(VBytes (pattern %d))' % n)
